@@ -310,6 +310,7 @@ Proof.
   - apply scan_noop.
     + rewrite Houts. apply accidental_nil_ns. intros d o Hd Hf. eapply B1; eauto.
     + rewrite Houts. apply missing_nil. exact Hall.
+    + intros d Hd. now apply scan_child_beyond_any.
     + discriminate.
 Qed.
 
@@ -416,7 +417,7 @@ Proof.
     - cbn. unfold cancel_entry_of. destruct (r_tx o); [destruct (find _ _)|]; cbn; exact C2.
     - cbn. unfold cancel_entry_of. destruct (r_tx o); [destruct (find _ _)|]; cbn; exact C3. }
   destruct H3 as (D1 & D2 & D3).
-  set (found := found_max ms []).
+  set (found := found_max chain []).
   assert (Hmono : forall a, lookup (w_child w) a <= lookup (w_child (restore_indices w3 found)) a).
   { intros a. rewrite <- D3. apply restore_indices_mono. }
   split.
@@ -424,7 +425,8 @@ Proof.
     destruct (D1 o Hin) as [(o0 & A & B)|(d & A & B)].
     + specialize (Hfo o0 A). unfold key_below in Hfo. rewrite B in Hfo.
       eapply N.lt_le_trans; [exact Hfo|apply Hmono].
-    + rewrite B. eapply N.le_lt_trans; [apply (found_max_covers ms [] d A)|].
+    + rewrite B. assert (A' : In d chain) by (unfold ms, missing in A; apply filter_In in A as [A _]; exact A).
+      eapply N.le_lt_trans; [apply (found_max_covers chain [] d A')|].
       apply restore_indices_above. apply lookup_in. now apply found_max_has_key.
   - intros c k m v Hc Hk.
     assert (Hc' : In c (w_ctxs w)) by (rewrite restore_indices_ctxs, D2 in Hc; exact Hc).
